@@ -42,9 +42,10 @@ TABLE = {
             'Does not decide crash-atomicity of shutil.move across file systems; trusted: ast parser, name resolution incl. local rebinding of open.',
             'DESIGN.md §4 C07'),
     'C08': ('ast bounds abstract interpretation (sign / <= per-type count) of the allowance deductions',
-            'Static: every deduction from the total lies in [0, count of that type], happens only inside the loop over types that occurred '
-            'at the WARNING-level table; errors are never deducted.',
-            'Does not decide equality with the stated formula (largest limit, blanket order); trusted: abstract transfer rules in vstat/rules/c08.py.',
+            'Static: every deduction from the total lies in [0, count of that type] (bounds abstract interpretation) and equals min(count, allowance) on all '
+            'valuations of a small grid (own interpreter over the min/max/+/- fragment: exhausts the orderings); deductions happen only inside the loop over types that '
+            'occurred in the WARNING-level table; errors are never deducted; the -maxwarn parser hands types on unmodified.',
+            'Exactness is decided on a finite grid for the min/max expression class only; counts are assumed non-negative; trusted: abstract transfer rules and vstat/interp.py.',
             'DESIGN.md §4 C08'),
     'C09': ('ast sibling agreement of the positions/weights comprehensions + provenance of weight keys',
             'Static: positions and weights given to the average are built over the same iterable under the same filter; weight keys are '
@@ -153,8 +154,9 @@ def main():
         },
         'engines': [{'name': 'vstat', 'path': '/verif/vstat', 'serves_properties': [c['property_id'] for c in checks],
                      'kind_free_text': 'repository-specific static analyser on the Python ast: structured-flow reaching conditions with '
-                                       'truth-table equivalence, def-use/origin sets, constant folder, format-layout calculator, '
-                                       'decorator-table reader; quick = rules on /repo, thorough = rules + scratch-variant self-test'}],
+                                       'truth-table equivalence, substitution environment, constant folder, format-layout calculator, '
+                                       'decorator-table reader, small-domain interpreter for comparison-only decision code, alpha-normalisation of local names; '
+                                       'quick = rules on /repo, thorough = rules + scratch-variant self-test (hand-written variants + verified seeded changes)'}],
         'checks': checks,
         'not_applicable': na,
         'notes': 'All verdicts are static (stdlib ast under /venv/bin/python); nothing of /repo is imported or run by the checks. '
